@@ -106,1465 +106,801 @@ fn main() {}
 
 
 
-trait T25_ArrayAdditionalSpecFns<A10_T, > where Self: T24_View, Self: T24_View<A16_V = D21_Seq<A10_T, >>,  {
+trait T9_View {
+    type A10_V : ;
 }
 
-trait T26_SliceAdditionalSpecFns<A10_T, > where Self: T24_View, Self: T24_View<A16_V = D21_Seq<A10_T, >>,  {
+trait T11_Clone where Self: Sized,  {
 }
 
-trait T27_SliceIndex<A10_T, > where A10_T : ?Sized,  {
-    type A28_Output : ?Sized;
+trait T12_Copy where Self: T11_Clone,  {
 }
 
-trait T29_SliceIndexSpec<A10_T, > where Self: T27_SliceIndex<A10_T, >, A10_T : ?Sized,  {
+trait T13_From<A2_T, > where Self: Sized,  {
 }
 
-trait T30_StringSliceAdditionalSpecFns {
+trait T14_FromSpec<A2_T, > where Self: Sized, Self: T13_From<A2_T, >,  {
 }
 
-trait T24_View {
-    type A16_V : ;
+trait T15_Tuple {
 }
 
-trait T31_Clone where Self: Sized,  {
+trait T17_FnOnce<A16_Args, > where A16_Args: Tuple,  {
+    type A18_Output : ;
 }
 
-trait T32_Copy where Self: T31_Clone,  {
+trait T19_FnMut<A16_Args, > where Self: T17_FnOnce<A16_Args, >, A16_Args: Tuple,  {
 }
 
-trait T34_PartialEq<A33_Rhs, > where A33_Rhs : ?Sized,  {
+trait T20_Fn<A16_Args, > where Self: T19_FnMut<A16_Args, >, A16_Args: Tuple,  {
 }
 
-trait T35_Eq where Self: T34_PartialEq<Self, >,  {
+trait T21_Allocator {
 }
 
-trait T36_From<A10_T, > where Self: Sized,  {
+trait T3_ZeroablePrimitive where Self: Sized, Self: T12_Copy,  {
 }
 
-trait T37_FromSpec<A10_T, > where Self: Sized, Self: T36_From<A10_T, >,  {
-}
-
-trait T38_Tuple {
-}
-
-trait T40_FnOnce<A39_Args, > where A39_Args: Tuple,  {
-    type A28_Output : ;
-}
-
-trait T41_FnMut<A39_Args, > where Self: T40_FnOnce<A39_Args, >, A39_Args: Tuple,  {
-}
-
-trait T42_Fn<A39_Args, > where Self: T41_FnMut<A39_Args, >, A39_Args: Tuple,  {
-}
-
-trait T44_Index<A43_Idx, > where A43_Idx : ?Sized,  {
-    type A28_Output : ?Sized;
-}
-
-trait T45_Integer where Self: T32_Copy,  {
-}
-
-trait T8_Allocator {
-}
-
-trait T46_Hash {
-}
-
-trait T48_Borrow<A47_Borrowed, > where A47_Borrowed : ?Sized,  {
-}
-
-trait T49_IndexSpec<A43_Idx, > where Self: T44_Index<A43_Idx, >, A43_Idx : ?Sized,  {
-}
-
-trait T50_Hasher {
-}
-
-trait T51_BuildHasher {
-    type A52_Hasher : T50_Hasher;
-}
-
-trait T53_RangeBounds<A10_T, > where A10_T : ?Sized,  {
-}
-
-trait T54_RangeBoundsSpec<A10_T, > where Self: T53_RangeBounds<A10_T, >, A10_T : ?Sized,  {
-}
-
-trait T12_ZeroablePrimitive where Self: Sized, Self: T32_Copy,  {
-}
-
-trait T55_ZeroablePrimitiveSpec where Self: Sized, Self: T32_Copy, Self: T12_ZeroablePrimitive,  {
+trait T22_ZeroablePrimitiveSpec where Self: Sized, Self: T12_Copy, Self: T3_ZeroablePrimitive,  {
 }
 
 struct D1_Global(
 );
 
-struct D2_DefaultHasher(
+struct D4_NonZero<A2_T, >(
+    Box<A2_T, >,
+) where A2_T: T3_ZeroablePrimitive, ;
+
+struct D6_SeqInner<A5_A, >(
+    Box<A5_A, >,
+) where ;
+
+struct D7_Seq<A5_A, >(
+    Box<A5_A, >,
+    D6_SeqInner<A5_A, >,
+) where ;
+
+struct D8_String(
 );
 
-struct D3_RandomState(
-);
-
-struct D9_HashMap<A4_Key, A5_Value, A6_S, A7_A, >(
-    Box<A4_Key, >,
-    Box<A5_Value, >,
-    Box<A6_S, >,
-    Box<A7_A, >,
-) where A7_A: T8_Allocator, ;
-
-struct D11_Bound<A10_T, >(
-    Box<A10_T, >,
-) where ;
-
-struct D13_NonZero<A10_T, >(
-    Box<A10_T, >,
-) where A10_T: T12_ZeroablePrimitive, ;
-
-struct D14_ISet<A7_A, >(
-    Box<A7_A, >,
-    C<0, (Box<(A7_A, ), >, Box<bool, >, ), >,
-) where ;
-
-struct D17_Map<A15_K, A16_V, >(
-    Box<A15_K, >,
-    Box<A16_V, >,
-) where ;
-
-struct D18_Provenance(
-);
-
-struct D19_PtrData<A10_T, >(
-    Box<A10_T, >,
-    <A10_T as std::ptr::Pointee>::Metadata,
-) where A10_T : ?Sized, ;
-
-struct D20_SeqInner<A7_A, >(
-    Box<A7_A, >,
-) where ;
-
-struct D21_Seq<A7_A, >(
-    Box<A7_A, >,
-    D20_SeqInner<A7_A, >,
-) where ;
-
-struct D22_Set<A7_A, >(
-    Box<A7_A, >,
-) where ;
-
-struct D23_String(
-);
-
-impl<A10_T, const A56_N: usize, > T24_View for Arr<A10_T, A56_N, > where  {
-    type A16_V = D21_Seq<A10_T, >;
-}
-
-impl<A10_T, const A56_N: usize, > T25_ArrayAdditionalSpecFns<A10_T, > for Arr<A10_T, A56_N, > where  {
-}
-
-impl<A10_T, > T24_View for C<1, (Box<A10_T, >, ), > where A10_T : ?Sized,  {
-    type A16_V = D19_PtrData<A10_T, >;
-}
-
-impl<A10_T, > T24_View for C<10, (Box<C<1, (Box<A10_T, >, ), >, >, ), > where A10_T : ?Sized,  {
-    type A16_V = D19_PtrData<A10_T, >;
-}
-
-impl<A10_T, > T24_View for [A10_T] where  {
-    type A16_V = D21_Seq<A10_T, >;
-}
-
-impl<A10_T, > T26_SliceAdditionalSpecFns<A10_T, > for [A10_T] where  {
-}
-
-impl T24_View for str {
-    type A16_V = D21_Seq<char, >;
-}
-
-impl T30_StringSliceAdditionalSpecFns for str {
-}
-
-impl T24_View for D23_String {
-    type A16_V = D21_Seq<char, >;
-}
-
-impl T29_SliceIndexSpec<str, > for (Box<D11_Bound<usize, >, >, Box<D11_Bound<usize, >, >, ) {
-}
-
-impl<A57_I, > T49_IndexSpec<A57_I, > for str where A57_I: T29_SliceIndexSpec<str, >,  {
-}
-
-impl<A7_A, > T24_View for C<2, (Box<A7_A, >, ), > where A7_A: T24_View, A7_A : ?Sized,  {
-    type A16_V = <A7_A as T24_View>::A16_V;
-}
-
-impl<A7_A, > T24_View for C<4, (Box<A7_A, >, Box<D1_Global, >, ), > where A7_A: T24_View, A7_A : ?Sized,  {
-    type A16_V = <A7_A as T24_View>::A16_V;
-}
-
-impl<A7_A, > T24_View for C<5, (Box<A7_A, >, Box<D1_Global, >, ), > where A7_A: T24_View,  {
-    type A16_V = <A7_A as T24_View>::A16_V;
-}
-
-impl<A7_A, > T24_View for C<6, (Box<A7_A, >, Box<D1_Global, >, ), > where A7_A: T24_View,  {
-    type A16_V = <A7_A as T24_View>::A16_V;
-}
-
-impl<A4_Key, A5_Value, A6_S, A7_A, > T24_View for D9_HashMap<A4_Key, A5_Value, A6_S, A7_A, > where A7_A: T8_Allocator,  {
-    type A16_V = D17_Map<A4_Key, A5_Value, >;
-}
-
-impl T24_View for () {
-    type A16_V = ();
-}
-
-impl T24_View for bool {
-    type A16_V = bool;
-}
-
-impl T24_View for u8 {
-    type A16_V = u8;
-}
-
-impl T24_View for u16 {
-    type A16_V = u16;
-}
-
-impl T24_View for u32 {
-    type A16_V = u32;
-}
-
-impl T24_View for u64 {
-    type A16_V = u64;
-}
-
-impl T24_View for u128 {
-    type A16_V = u128;
-}
-
-impl T24_View for usize {
-    type A16_V = usize;
-}
-
-impl T24_View for i8 {
-    type A16_V = i8;
-}
-
-impl T24_View for i16 {
-    type A16_V = i16;
-}
-
-impl T24_View for i32 {
-    type A16_V = i32;
-}
-
-impl T24_View for i64 {
-    type A16_V = i64;
-}
-
-impl T24_View for i128 {
-    type A16_V = i128;
-}
-
-impl T24_View for isize {
-    type A16_V = isize;
-}
-
-impl T24_View for char {
-    type A16_V = char;
-}
-
-impl<A58_A0, A59_A1, > T24_View for (Box<A58_A0, >, Box<A59_A1, >, ) where A58_A0: T24_View, A59_A1: T24_View,  {
-    type A16_V = (Box<<A58_A0 as T24_View>::A16_V, >, Box<<A59_A1 as T24_View>::A16_V, >, );
-}
-
-impl T37_FromSpec<u8, > for u16 {
-}
-
-impl T37_FromSpec<u8, > for u32 {
-}
-
-impl T37_FromSpec<u8, > for u64 {
-}
-
-impl T37_FromSpec<u8, > for usize {
-}
-
-impl T37_FromSpec<u8, > for u128 {
-}
-
-impl T37_FromSpec<u16, > for u32 {
-}
-
-impl T37_FromSpec<u16, > for u64 {
-}
-
-impl T37_FromSpec<u16, > for usize {
-}
-
-impl T37_FromSpec<u16, > for u128 {
-}
-
-impl T37_FromSpec<u32, > for u64 {
-}
-
-impl T37_FromSpec<u32, > for u128 {
-}
-
-impl T37_FromSpec<u64, > for u128 {
-}
-
-impl T37_FromSpec<i8, > for i16 {
-}
-
-impl T37_FromSpec<i8, > for i32 {
-}
-
-impl T37_FromSpec<i8, > for i64 {
-}
-
-impl T37_FromSpec<i8, > for isize {
-}
-
-impl T37_FromSpec<i8, > for i128 {
-}
-
-impl T37_FromSpec<i16, > for i32 {
-}
-
-impl T37_FromSpec<i16, > for i64 {
-}
-
-impl T37_FromSpec<i16, > for isize {
-}
-
-impl T37_FromSpec<i16, > for i128 {
-}
-
-impl T37_FromSpec<i32, > for i64 {
-}
-
-impl T37_FromSpec<i32, > for i128 {
-}
-
-impl T37_FromSpec<i64, > for i128 {
-}
-
-impl T24_View for D2_DefaultHasher {
-    type A16_V = D21_Seq<D21_Seq<u8, >, >;
-}
-
-impl<A10_T, > T54_RangeBoundsSpec<A10_T, > for (Box<D11_Bound<A10_T, >, >, Box<D11_Bound<A10_T, >, >, ) where  {
-}
-
-impl<A10_T, > T54_RangeBoundsSpec<A10_T, > for (Box<D11_Bound<C<2, (Box<A10_T, >, ), >, >, >, Box<D11_Bound<C<2, (Box<A10_T, >, ), >, >, >, ) where A10_T : ?Sized,  {
-}
-
-impl<A10_T, > T29_SliceIndexSpec<[A10_T], > for usize where  {
-}
-
-impl<A10_T, A57_I, > T49_IndexSpec<A57_I, > for [A10_T] where A57_I: T27_SliceIndex<[A10_T], >,  {
-}
-
-impl<A10_T, A57_I, const A56_N: usize, > T49_IndexSpec<A57_I, > for Arr<A10_T, A56_N, > where [A10_T]: T44_Index<A57_I, >,  {
-}
-
-impl T55_ZeroablePrimitiveSpec for char {
-}
-
-impl T55_ZeroablePrimitiveSpec for u8 {
-}
-
-impl T55_ZeroablePrimitiveSpec for u16 {
-}
-
-impl T55_ZeroablePrimitiveSpec for u32 {
-}
-
-impl T55_ZeroablePrimitiveSpec for u64 {
-}
-
-impl T55_ZeroablePrimitiveSpec for usize {
-}
-
-impl T55_ZeroablePrimitiveSpec for i8 {
-}
-
-impl T55_ZeroablePrimitiveSpec for i16 {
-}
-
-impl T55_ZeroablePrimitiveSpec for i32 {
-}
-
-impl T55_ZeroablePrimitiveSpec for i64 {
-}
-
-impl T55_ZeroablePrimitiveSpec for isize {
-}
-
-impl<A10_T, > T24_View for D13_NonZero<A10_T, > where A10_T: T12_ZeroablePrimitive,  {
-    type A16_V = A10_T;
-}
-
-impl<A10_T, > T37_FromSpec<D13_NonZero<A10_T, >, > for A10_T where A10_T: T12_ZeroablePrimitive,  {
-}
-
-impl T12_ZeroablePrimitive for u8 {
-}
-
-impl T12_ZeroablePrimitive for u16 {
-}
-
-impl T12_ZeroablePrimitive for u32 {
-}
-
-impl T12_ZeroablePrimitive for u64 {
-}
-
-impl T12_ZeroablePrimitive for u128 {
-}
-
-impl T12_ZeroablePrimitive for usize {
-}
-
-impl T12_ZeroablePrimitive for i8 {
-}
-
-impl T12_ZeroablePrimitive for i16 {
-}
-
-impl T12_ZeroablePrimitive for i32 {
-}
-
-impl T12_ZeroablePrimitive for i64 {
-}
-
-impl T12_ZeroablePrimitive for i128 {
-}
-
-impl T12_ZeroablePrimitive for isize {
-}
-
-impl T12_ZeroablePrimitive for char {
-}
-
-impl<A10_T, > T48_Borrow<A10_T, > for A10_T where A10_T : ?Sized,  {
-}
-
-impl<A10_T, > T48_Borrow<A10_T, > for C<2, (Box<A10_T, >, ), > where A10_T : ?Sized,  {
-}
-
-impl<A10_T, > T48_Borrow<A10_T, > for C<3, (Box<A10_T, >, ), > where A10_T : ?Sized,  {
-}
-
-impl<A10_T, const A56_N: usize, > T48_Borrow<[A10_T], > for Arr<A10_T, A56_N, > where  {
-}
-
-impl<A10_T, A7_A, > T48_Borrow<A10_T, > for C<4, (Box<A10_T, >, Box<A7_A, >, ), > where A7_A: T8_Allocator, A10_T : ?Sized,  {
-}
-
-impl<A10_T, A7_A, > T48_Borrow<A10_T, > for C<5, (Box<A10_T, >, Box<A7_A, >, ), > where A7_A: T8_Allocator, A10_T : ?Sized,  {
-}
-
-impl T48_Borrow<str, > for D23_String {
-}
-
-impl<A10_T, A7_A, > T48_Borrow<A10_T, > for C<6, (Box<A10_T, >, Box<A7_A, >, ), > where A7_A: T8_Allocator, A10_T : ?Sized,  {
-}
-
-impl<A15_K, A16_V, A6_S, A7_A, > T31_Clone for D9_HashMap<A15_K, A16_V, A6_S, A7_A, > where A15_K: T31_Clone, A16_V: T31_Clone, A6_S: T31_Clone, A7_A: T8_Allocator, A7_A: T31_Clone,  {
-}
-
-impl<A10_T, A7_A, > T31_Clone for C<4, (Box<A10_T, >, Box<A7_A, >, ), > where A10_T: T31_Clone, A7_A: T8_Allocator, A7_A: T31_Clone,  {
-}
-
-impl<A10_T, A7_A, > T31_Clone for C<4, (Box<[A10_T], >, Box<A7_A, >, ), > where A10_T: T31_Clone, A7_A: T8_Allocator, A7_A: T31_Clone,  {
-}
-
-impl T31_Clone for C<4, (Box<str, >, Box<D1_Global, >, ), > {
-}
-
-impl T31_Clone for D3_RandomState {
-}
-
-impl T31_Clone for D2_DefaultHasher {
-}
-
-impl<A10_T, > T31_Clone for D13_NonZero<A10_T, > where A10_T: T12_ZeroablePrimitive,  {
-}
-
-impl T31_Clone for usize {
-}
-
-impl T31_Clone for u8 {
-}
-
-impl T31_Clone for u16 {
-}
-
-impl T31_Clone for u32 {
-}
-
-impl T31_Clone for u64 {
-}
-
-impl T31_Clone for u128 {
-}
-
-impl T31_Clone for isize {
-}
-
-impl T31_Clone for i8 {
-}
-
-impl T31_Clone for i16 {
-}
-
-impl T31_Clone for i32 {
-}
-
-impl T31_Clone for i64 {
-}
-
-impl T31_Clone for i128 {
-}
-
-impl T31_Clone for bool {
-}
-
-impl T31_Clone for char {
-}
-
-impl<A10_T, > T31_Clone for C<10, (Box<C<1, (Box<A10_T, >, ), >, >, ), > where A10_T : ?Sized,  {
-}
-
-impl<A10_T, > T31_Clone for C<1, (Box<A10_T, >, ), > where A10_T : ?Sized,  {
-}
-
-impl<A10_T, > T31_Clone for C<2, (Box<A10_T, >, ), > where A10_T : ?Sized,  {
-}
-
-impl<A10_T, > T31_Clone for D11_Bound<A10_T, > where A10_T: T31_Clone,  {
-}
-
-impl<A10_T, const A56_N: usize, > T31_Clone for Arr<A10_T, A56_N, > where A10_T: T31_Clone,  {
-}
-
-impl T31_Clone for D1_Global {
-}
-
-impl<A10_T, A7_A, > T31_Clone for C<5, (Box<A10_T, >, Box<A7_A, >, ), > where A7_A: T8_Allocator, A7_A: T31_Clone, A10_T : ?Sized,  {
-}
-
-impl T31_Clone for D23_String {
-}
-
-impl<A10_T, A7_A, > T31_Clone for C<6, (Box<A10_T, >, Box<A7_A, >, ), > where A7_A: T8_Allocator, A7_A: T31_Clone, A10_T : ?Sized,  {
-}
-
-impl<A7_A, > T31_Clone for C<7, (Box<A7_A, >, ), > where  {
-}
-
-impl<A7_A, > T31_Clone for C<8, (Box<A7_A, >, ), > where A7_A: T32_Copy,  {
-}
-
-impl T31_Clone for int {
-}
-
-impl T31_Clone for nat {
-}
-
-impl<A15_K, A16_V, A6_S, A7_A, > T34_PartialEq<D9_HashMap<A15_K, A16_V, A6_S, A7_A, >, > for D9_HashMap<A15_K, A16_V, A6_S, A7_A, > where A15_K: T35_Eq, A15_K: T46_Hash, A16_V: T34_PartialEq<A16_V, >, A6_S: T51_BuildHasher, A7_A: T8_Allocator,  {
-}
-
-impl T34_PartialEq<str, > for str {
-}
-
-impl T34_PartialEq<D23_String, > for str {
-}
-
-impl<A7_A, A60_B, > T34_PartialEq<C<2, (Box<A60_B, >, ), >, > for C<2, (Box<A7_A, >, ), > where A7_A: T34_PartialEq<A60_B, >, A7_A : ?Sized, A60_B : ?Sized,  {
-}
-
-impl<A7_A, A60_B, > T34_PartialEq<C<3, (Box<A60_B, >, ), >, > for C<2, (Box<A7_A, >, ), > where A7_A: T34_PartialEq<A60_B, >, A7_A : ?Sized, A60_B : ?Sized,  {
-}
-
-impl<A10_T, A61_U, const A56_N: usize, > T34_PartialEq<Arr<A61_U, A56_N, >, > for C<2, (Box<[A10_T], >, ), > where A10_T: T34_PartialEq<A61_U, >,  {
-}
-
-impl T34_PartialEq<D23_String, > for C<2, (Box<str, >, ), > {
-}
-
-impl T34_PartialEq<D23_String, > for D23_String {
-}
-
-impl T34_PartialEq<str, > for D23_String {
-}
-
-impl T34_PartialEq<C<2, (Box<str, >, ), >, > for D23_String {
-}
-
-impl<A10_T, > T34_PartialEq<D13_NonZero<A10_T, >, > for D13_NonZero<A10_T, > where A10_T: T12_ZeroablePrimitive, A10_T: T34_PartialEq<A10_T, >,  {
-}
-
-impl<A10_T, > T34_PartialEq<C<10, (Box<C<1, (Box<A10_T, >, ), >, >, ), >, > for C<10, (Box<C<1, (Box<A10_T, >, ), >, >, ), > where A10_T : ?Sized,  {
-}
-
-impl<A10_T, > T34_PartialEq<C<1, (Box<A10_T, >, ), >, > for C<1, (Box<A10_T, >, ), > where A10_T : ?Sized,  {
-}
-
-impl T34_PartialEq<(), > for () {
-}
-
-impl T34_PartialEq<bool, > for bool {
-}
-
-impl T34_PartialEq<char, > for char {
-}
-
-impl T34_PartialEq<usize, > for usize {
-}
-
-impl T34_PartialEq<u8, > for u8 {
-}
-
-impl T34_PartialEq<u16, > for u16 {
-}
-
-impl T34_PartialEq<u32, > for u32 {
-}
-
-impl T34_PartialEq<u64, > for u64 {
-}
-
-impl T34_PartialEq<u128, > for u128 {
-}
-
-impl T34_PartialEq<isize, > for isize {
-}
-
-impl T34_PartialEq<i8, > for i8 {
-}
-
-impl T34_PartialEq<i16, > for i16 {
-}
-
-impl T34_PartialEq<i32, > for i32 {
-}
-
-impl T34_PartialEq<i64, > for i64 {
-}
-
-impl T34_PartialEq<i128, > for i128 {
-}
-
-impl<A7_A, A60_B, > T34_PartialEq<C<3, (Box<A60_B, >, ), >, > for C<3, (Box<A7_A, >, ), > where A7_A: T34_PartialEq<A60_B, >, A7_A : ?Sized, A60_B : ?Sized,  {
-}
-
-impl<A7_A, A60_B, > T34_PartialEq<C<2, (Box<A60_B, >, ), >, > for C<3, (Box<A7_A, >, ), > where A7_A: T34_PartialEq<A60_B, >, A7_A : ?Sized, A60_B : ?Sized,  {
-}
-
-impl<A10_T, A61_U, const A56_N: usize, > T34_PartialEq<Arr<A61_U, A56_N, >, > for C<3, (Box<[A10_T], >, ), > where A10_T: T34_PartialEq<A61_U, >,  {
-}
-
-impl<A10_T, > T34_PartialEq<D11_Bound<A10_T, >, > for D11_Bound<A10_T, > where A10_T: T34_PartialEq<A10_T, >,  {
-}
-
-impl<A10_T, A61_U, const A56_N: usize, > T34_PartialEq<Arr<A61_U, A56_N, >, > for Arr<A10_T, A56_N, > where A10_T: T34_PartialEq<A61_U, >,  {
-}
-
-impl<A10_T, A61_U, const A56_N: usize, > T34_PartialEq<[A61_U], > for Arr<A10_T, A56_N, > where A10_T: T34_PartialEq<A61_U, >,  {
-}
-
-impl<A10_T, A61_U, const A56_N: usize, > T34_PartialEq<C<2, (Box<[A61_U], >, ), >, > for Arr<A10_T, A56_N, > where A10_T: T34_PartialEq<A61_U, >,  {
-}
-
-impl<A10_T, A61_U, const A56_N: usize, > T34_PartialEq<C<3, (Box<[A61_U], >, ), >, > for Arr<A10_T, A56_N, > where A10_T: T34_PartialEq<A61_U, >,  {
-}
-
-impl<A10_T, A61_U, const A56_N: usize, > T34_PartialEq<Arr<A61_U, A56_N, >, > for [A10_T] where A10_T: T34_PartialEq<A61_U, >,  {
-}
-
-impl<A10_T, A61_U, > T34_PartialEq<[A61_U], > for [A10_T] where A10_T: T34_PartialEq<A61_U, >,  {
-}
-
-impl<A61_U, A10_T, > T34_PartialEq<(Box<A61_U, >, Box<A10_T, >, ), > for (Box<A61_U, >, Box<A10_T, >, ) where A61_U: T34_PartialEq<A61_U, >, A10_T: T34_PartialEq<A10_T, >,  {
-}
-
-impl<A10_T, A7_A, > T34_PartialEq<C<4, (Box<A10_T, >, Box<A7_A, >, ), >, > for C<4, (Box<A10_T, >, Box<A7_A, >, ), > where A10_T: T34_PartialEq<A10_T, >, A7_A: T8_Allocator, A10_T : ?Sized,  {
-}
-
-impl<A10_T, A7_A, > T34_PartialEq<C<5, (Box<A10_T, >, Box<A7_A, >, ), >, > for C<5, (Box<A10_T, >, Box<A7_A, >, ), > where A10_T: T34_PartialEq<A10_T, >, A7_A: T8_Allocator, A10_T : ?Sized,  {
-}
-
-impl<A10_T, A7_A, > T34_PartialEq<C<6, (Box<A10_T, >, Box<A7_A, >, ), >, > for C<6, (Box<A10_T, >, Box<A7_A, >, ), > where A10_T: T34_PartialEq<A10_T, >, A7_A: T8_Allocator, A10_T : ?Sized,  {
-}
-
-impl T34_PartialEq<int, > for int {
-}
-
-impl T34_PartialEq<nat, > for nat {
-}
-
-impl<A15_K, A16_V, A6_S, A7_A, > T35_Eq for D9_HashMap<A15_K, A16_V, A6_S, A7_A, > where A15_K: T35_Eq, A15_K: T46_Hash, A16_V: T35_Eq, A6_S: T51_BuildHasher, A7_A: T8_Allocator,  {
-}
-
-impl<A10_T, > T35_Eq for D13_NonZero<A10_T, > where A10_T: T12_ZeroablePrimitive, A10_T: T35_Eq,  {
-}
-
-impl<A10_T, > T35_Eq for C<10, (Box<C<1, (Box<A10_T, >, ), >, >, ), > where A10_T : ?Sized,  {
-}
-
-impl<A10_T, > T35_Eq for C<1, (Box<A10_T, >, ), > where A10_T : ?Sized,  {
-}
-
-impl T35_Eq for () {
-}
-
-impl T35_Eq for bool {
-}
-
-impl T35_Eq for char {
-}
-
-impl T35_Eq for usize {
-}
-
-impl T35_Eq for u8 {
-}
-
-impl T35_Eq for u16 {
-}
-
-impl T35_Eq for u32 {
-}
-
-impl T35_Eq for u64 {
-}
-
-impl T35_Eq for u128 {
+impl T9_View for str {
+    type A10_V = D7_Seq<char, >;
 }
 
-impl T35_Eq for isize {
+impl T9_View for D8_String {
+    type A10_V = D7_Seq<char, >;
 }
 
-impl T35_Eq for i8 {
+impl<A5_A, > T9_View for C<2, (Box<A5_A, >, ), > where A5_A: T9_View, A5_A : ?Sized,  {
+    type A10_V = <A5_A as T9_View>::A10_V;
 }
 
-impl T35_Eq for i16 {
+impl<A5_A, > T9_View for C<4, (Box<A5_A, >, Box<D1_Global, >, ), > where A5_A: T9_View, A5_A : ?Sized,  {
+    type A10_V = <A5_A as T9_View>::A10_V;
 }
 
-impl T35_Eq for i32 {
+impl<A5_A, > T9_View for C<5, (Box<A5_A, >, Box<D1_Global, >, ), > where A5_A: T9_View,  {
+    type A10_V = <A5_A as T9_View>::A10_V;
 }
 
-impl T35_Eq for i64 {
+impl<A5_A, > T9_View for C<6, (Box<A5_A, >, Box<D1_Global, >, ), > where A5_A: T9_View,  {
+    type A10_V = <A5_A as T9_View>::A10_V;
 }
 
-impl T35_Eq for i128 {
+impl T9_View for () {
+    type A10_V = ();
 }
 
-impl<A7_A, > T35_Eq for C<2, (Box<A7_A, >, ), > where A7_A: T35_Eq, A7_A : ?Sized,  {
+impl T9_View for bool {
+    type A10_V = bool;
 }
 
-impl<A7_A, > T35_Eq for C<3, (Box<A7_A, >, ), > where A7_A: T35_Eq, A7_A : ?Sized,  {
+impl T9_View for u8 {
+    type A10_V = u8;
 }
 
-impl<A10_T, > T35_Eq for D11_Bound<A10_T, > where A10_T: T35_Eq,  {
+impl T9_View for u16 {
+    type A10_V = u16;
 }
 
-impl<A10_T, const A56_N: usize, > T35_Eq for Arr<A10_T, A56_N, > where A10_T: T35_Eq,  {
+impl T9_View for u32 {
+    type A10_V = u32;
 }
 
-impl<A10_T, > T35_Eq for [A10_T] where A10_T: T35_Eq,  {
+impl T9_View for u64 {
+    type A10_V = u64;
 }
 
-impl T35_Eq for str {
+impl T9_View for u128 {
+    type A10_V = u128;
 }
 
-impl<A61_U, A10_T, > T35_Eq for (Box<A61_U, >, Box<A10_T, >, ) where A61_U: T35_Eq, A10_T: T35_Eq,  {
+impl T9_View for usize {
+    type A10_V = usize;
 }
 
-impl<A10_T, A7_A, > T35_Eq for C<4, (Box<A10_T, >, Box<A7_A, >, ), > where A10_T: T35_Eq, A7_A: T8_Allocator, A10_T : ?Sized,  {
+impl T9_View for i8 {
+    type A10_V = i8;
 }
 
-impl<A10_T, A7_A, > T35_Eq for C<5, (Box<A10_T, >, Box<A7_A, >, ), > where A10_T: T35_Eq, A7_A: T8_Allocator, A10_T : ?Sized,  {
+impl T9_View for i16 {
+    type A10_V = i16;
 }
 
-impl T35_Eq for D23_String {
+impl T9_View for i32 {
+    type A10_V = i32;
 }
 
-impl<A10_T, A7_A, > T35_Eq for C<6, (Box<A10_T, >, Box<A7_A, >, ), > where A10_T: T35_Eq, A7_A: T8_Allocator, A10_T : ?Sized,  {
+impl T9_View for i64 {
+    type A10_V = i64;
 }
 
-impl T35_Eq for int {
+impl T9_View for i128 {
+    type A10_V = i128;
 }
 
-impl T35_Eq for nat {
+impl T9_View for isize {
+    type A10_V = isize;
 }
 
-impl<A10_T, > T36_From<D13_NonZero<A10_T, >, > for A10_T where A10_T: T12_ZeroablePrimitive,  {
+impl T9_View for char {
+    type A10_V = char;
 }
 
-impl<A10_T, > T36_From<A10_T, > for A10_T where  {
+impl T14_FromSpec<u8, > for u16 {
 }
 
-impl<A15_K, A16_V, const A56_N: usize, > T36_From<Arr<(Box<A15_K, >, Box<A16_V, >, ), A56_N, >, > for D9_HashMap<A15_K, A16_V, D3_RandomState, D1_Global, > where A15_K: T35_Eq, A15_K: T46_Hash,  {
+impl T14_FromSpec<u8, > for u32 {
 }
 
-impl<A10_T, > T36_From<A10_T, > for C<4, (Box<A10_T, >, Box<D1_Global, >, ), > where  {
+impl T14_FromSpec<u8, > for u64 {
 }
 
-impl<A10_T, > T36_From<C<2, (Box<[A10_T], >, ), >, > for C<4, (Box<[A10_T], >, Box<D1_Global, >, ), > where A10_T: T31_Clone,  {
+impl T14_FromSpec<u8, > for usize {
 }
 
-impl<A10_T, > T36_From<C<3, (Box<[A10_T], >, ), >, > for C<4, (Box<[A10_T], >, Box<D1_Global, >, ), > where A10_T: T31_Clone,  {
+impl T14_FromSpec<u8, > for u128 {
 }
 
-impl T36_From<C<2, (Box<str, >, ), >, > for C<4, (Box<str, >, Box<D1_Global, >, ), > {
+impl T14_FromSpec<u16, > for u32 {
 }
 
-impl T36_From<C<3, (Box<str, >, ), >, > for C<4, (Box<str, >, Box<D1_Global, >, ), > {
+impl T14_FromSpec<u16, > for u64 {
 }
 
-impl<A7_A, > T36_From<C<4, (Box<str, >, Box<A7_A, >, ), >, > for C<4, (Box<[u8], >, Box<A7_A, >, ), > where A7_A: T8_Allocator,  {
+impl T14_FromSpec<u16, > for usize {
 }
 
-impl<A10_T, const A56_N: usize, > T36_From<Arr<A10_T, A56_N, >, > for C<4, (Box<[A10_T], >, Box<D1_Global, >, ), > where  {
+impl T14_FromSpec<u16, > for u128 {
 }
 
-impl T36_From<D23_String, > for C<4, (Box<str, >, Box<D1_Global, >, ), > {
+impl T14_FromSpec<u32, > for u64 {
 }
 
-impl<A10_T, > T36_From<A10_T, > for C<6, (Box<A10_T, >, Box<D1_Global, >, ), > where  {
+impl T14_FromSpec<u32, > for u128 {
 }
 
-impl<A10_T, const A56_N: usize, > T36_From<Arr<A10_T, A56_N, >, > for C<6, (Box<[A10_T], >, Box<D1_Global, >, ), > where  {
+impl T14_FromSpec<u64, > for u128 {
 }
 
-impl<A10_T, > T36_From<C<2, (Box<[A10_T], >, ), >, > for C<6, (Box<[A10_T], >, Box<D1_Global, >, ), > where A10_T: T31_Clone,  {
+impl T14_FromSpec<i8, > for i16 {
 }
 
-impl<A10_T, > T36_From<C<3, (Box<[A10_T], >, ), >, > for C<6, (Box<[A10_T], >, Box<D1_Global, >, ), > where A10_T: T31_Clone,  {
+impl T14_FromSpec<i8, > for i32 {
 }
 
-impl T36_From<C<2, (Box<str, >, ), >, > for C<6, (Box<str, >, Box<D1_Global, >, ), > {
+impl T14_FromSpec<i8, > for i64 {
 }
 
-impl T36_From<C<3, (Box<str, >, ), >, > for C<6, (Box<str, >, Box<D1_Global, >, ), > {
+impl T14_FromSpec<i8, > for isize {
 }
 
-impl T36_From<D23_String, > for C<6, (Box<str, >, Box<D1_Global, >, ), > {
+impl T14_FromSpec<i8, > for i128 {
 }
 
-impl<A10_T, A7_A, > T36_From<C<4, (Box<A10_T, >, Box<A7_A, >, ), >, > for C<6, (Box<A10_T, >, Box<A7_A, >, ), > where A7_A: T8_Allocator, A10_T : ?Sized,  {
+impl T14_FromSpec<i16, > for i32 {
 }
 
-impl T36_From<C<6, (Box<str, >, Box<D1_Global, >, ), >, > for C<6, (Box<[u8], >, Box<D1_Global, >, ), > {
+impl T14_FromSpec<i16, > for i64 {
 }
 
-impl<A10_T, > T36_From<A10_T, > for C<5, (Box<A10_T, >, Box<D1_Global, >, ), > where  {
+impl T14_FromSpec<i16, > for isize {
 }
 
-impl<A10_T, const A56_N: usize, > T36_From<Arr<A10_T, A56_N, >, > for C<5, (Box<[A10_T], >, Box<D1_Global, >, ), > where  {
+impl T14_FromSpec<i16, > for i128 {
 }
 
-impl<A10_T, > T36_From<C<2, (Box<[A10_T], >, ), >, > for C<5, (Box<[A10_T], >, Box<D1_Global, >, ), > where A10_T: T31_Clone,  {
+impl T14_FromSpec<i32, > for i64 {
 }
 
-impl<A10_T, > T36_From<C<3, (Box<[A10_T], >, ), >, > for C<5, (Box<[A10_T], >, Box<D1_Global, >, ), > where A10_T: T31_Clone,  {
+impl T14_FromSpec<i32, > for i128 {
 }
 
-impl T36_From<C<2, (Box<str, >, ), >, > for C<5, (Box<str, >, Box<D1_Global, >, ), > {
+impl T14_FromSpec<i64, > for i128 {
 }
 
-impl T36_From<C<3, (Box<str, >, ), >, > for C<5, (Box<str, >, Box<D1_Global, >, ), > {
+impl T22_ZeroablePrimitiveSpec for char {
 }
 
-impl T36_From<D23_String, > for C<5, (Box<str, >, Box<D1_Global, >, ), > {
+impl T22_ZeroablePrimitiveSpec for u8 {
 }
 
-impl<A10_T, A7_A, > T36_From<C<4, (Box<A10_T, >, Box<A7_A, >, ), >, > for C<5, (Box<A10_T, >, Box<A7_A, >, ), > where A7_A: T8_Allocator, A10_T : ?Sized,  {
+impl T22_ZeroablePrimitiveSpec for u16 {
 }
 
-impl T36_From<C<5, (Box<str, >, Box<D1_Global, >, ), >, > for C<5, (Box<[u8], >, Box<D1_Global, >, ), > {
+impl T22_ZeroablePrimitiveSpec for u32 {
 }
 
-impl T36_From<D13_NonZero<u8, >, > for D13_NonZero<u16, > {
+impl T22_ZeroablePrimitiveSpec for u64 {
 }
 
-impl T36_From<D13_NonZero<u8, >, > for D13_NonZero<u32, > {
+impl T22_ZeroablePrimitiveSpec for usize {
 }
 
-impl T36_From<D13_NonZero<u8, >, > for D13_NonZero<u64, > {
+impl T22_ZeroablePrimitiveSpec for i8 {
 }
 
-impl T36_From<D13_NonZero<u8, >, > for D13_NonZero<u128, > {
+impl T22_ZeroablePrimitiveSpec for i16 {
 }
 
-impl T36_From<D13_NonZero<u8, >, > for D13_NonZero<usize, > {
+impl T22_ZeroablePrimitiveSpec for i32 {
 }
 
-impl T36_From<D13_NonZero<u16, >, > for D13_NonZero<u32, > {
+impl T22_ZeroablePrimitiveSpec for i64 {
 }
 
-impl T36_From<D13_NonZero<u16, >, > for D13_NonZero<u64, > {
+impl T22_ZeroablePrimitiveSpec for isize {
 }
 
-impl T36_From<D13_NonZero<u16, >, > for D13_NonZero<u128, > {
+impl<A2_T, > T9_View for D4_NonZero<A2_T, > where A2_T: T3_ZeroablePrimitive,  {
+    type A10_V = A2_T;
 }
 
-impl T36_From<D13_NonZero<u16, >, > for D13_NonZero<usize, > {
+impl<A2_T, > T14_FromSpec<D4_NonZero<A2_T, >, > for A2_T where A2_T: T3_ZeroablePrimitive,  {
 }
 
-impl T36_From<D13_NonZero<u32, >, > for D13_NonZero<u64, > {
+impl T3_ZeroablePrimitive for u8 {
 }
 
-impl T36_From<D13_NonZero<u32, >, > for D13_NonZero<u128, > {
+impl T3_ZeroablePrimitive for u16 {
 }
 
-impl T36_From<D13_NonZero<u64, >, > for D13_NonZero<u128, > {
+impl T3_ZeroablePrimitive for u32 {
 }
 
-impl T36_From<D13_NonZero<i8, >, > for D13_NonZero<i16, > {
+impl T3_ZeroablePrimitive for u64 {
 }
 
-impl T36_From<D13_NonZero<i8, >, > for D13_NonZero<i32, > {
+impl T3_ZeroablePrimitive for u128 {
 }
 
-impl T36_From<D13_NonZero<i8, >, > for D13_NonZero<i64, > {
+impl T3_ZeroablePrimitive for usize {
 }
 
-impl T36_From<D13_NonZero<i8, >, > for D13_NonZero<i128, > {
+impl T3_ZeroablePrimitive for i8 {
 }
 
-impl T36_From<D13_NonZero<i8, >, > for D13_NonZero<isize, > {
+impl T3_ZeroablePrimitive for i16 {
 }
 
-impl T36_From<D13_NonZero<i16, >, > for D13_NonZero<i32, > {
+impl T3_ZeroablePrimitive for i32 {
 }
 
-impl T36_From<D13_NonZero<i16, >, > for D13_NonZero<i64, > {
+impl T3_ZeroablePrimitive for i64 {
 }
 
-impl T36_From<D13_NonZero<i16, >, > for D13_NonZero<i128, > {
+impl T3_ZeroablePrimitive for i128 {
 }
 
-impl T36_From<D13_NonZero<i16, >, > for D13_NonZero<isize, > {
+impl T3_ZeroablePrimitive for isize {
 }
 
-impl T36_From<D13_NonZero<i32, >, > for D13_NonZero<i64, > {
+impl T3_ZeroablePrimitive for char {
 }
 
-impl T36_From<D13_NonZero<i32, >, > for D13_NonZero<i128, > {
+impl<A2_T, A5_A, > T11_Clone for C<4, (Box<A2_T, >, Box<A5_A, >, ), > where A2_T: T11_Clone, A5_A: T21_Allocator, A5_A: T11_Clone,  {
 }
 
-impl T36_From<D13_NonZero<i64, >, > for D13_NonZero<i128, > {
+impl T11_Clone for C<4, (Box<str, >, Box<D1_Global, >, ), > {
 }
 
-impl T36_From<D13_NonZero<u8, >, > for D13_NonZero<i16, > {
+impl<A2_T, > T11_Clone for D4_NonZero<A2_T, > where A2_T: T3_ZeroablePrimitive,  {
 }
 
-impl T36_From<D13_NonZero<u8, >, > for D13_NonZero<i32, > {
+impl T11_Clone for usize {
 }
 
-impl T36_From<D13_NonZero<u8, >, > for D13_NonZero<i64, > {
+impl T11_Clone for u8 {
 }
 
-impl T36_From<D13_NonZero<u8, >, > for D13_NonZero<i128, > {
+impl T11_Clone for u16 {
 }
 
-impl T36_From<D13_NonZero<u8, >, > for D13_NonZero<isize, > {
+impl T11_Clone for u32 {
 }
 
-impl T36_From<D13_NonZero<u16, >, > for D13_NonZero<i32, > {
+impl T11_Clone for u64 {
 }
 
-impl T36_From<D13_NonZero<u16, >, > for D13_NonZero<i64, > {
+impl T11_Clone for u128 {
 }
 
-impl T36_From<D13_NonZero<u16, >, > for D13_NonZero<i128, > {
+impl T11_Clone for isize {
 }
 
-impl T36_From<D13_NonZero<u32, >, > for D13_NonZero<i64, > {
+impl T11_Clone for i8 {
 }
 
-impl T36_From<D13_NonZero<u32, >, > for D13_NonZero<i128, > {
+impl T11_Clone for i16 {
 }
 
-impl T36_From<D13_NonZero<u64, >, > for D13_NonZero<i128, > {
+impl T11_Clone for i32 {
 }
 
-impl T36_From<bool, > for usize {
+impl T11_Clone for i64 {
 }
 
-impl T36_From<u8, > for usize {
+impl T11_Clone for i128 {
 }
 
-impl T36_From<u16, > for usize {
+impl T11_Clone for bool {
 }
 
-impl<A10_T, > T36_From<(Box<A10_T, >, Box<A10_T, >, ), > for Arr<A10_T, 2, > where  {
+impl T11_Clone for char {
 }
 
-impl T36_From<bool, > for u8 {
+impl<A2_T, > T11_Clone for C<2, (Box<A2_T, >, ), > where A2_T : ?Sized,  {
 }
 
-impl T36_From<bool, > for u16 {
+impl T11_Clone for D1_Global {
 }
 
-impl T36_From<u8, > for u16 {
+impl<A2_T, A5_A, > T11_Clone for C<5, (Box<A2_T, >, Box<A5_A, >, ), > where A5_A: T21_Allocator, A5_A: T11_Clone, A2_T : ?Sized,  {
 }
 
-impl T36_From<bool, > for u32 {
+impl T11_Clone for D8_String {
 }
 
-impl T36_From<u8, > for u32 {
+impl<A2_T, A5_A, > T11_Clone for C<6, (Box<A2_T, >, Box<A5_A, >, ), > where A5_A: T21_Allocator, A5_A: T11_Clone, A2_T : ?Sized,  {
 }
 
-impl T36_From<u16, > for u32 {
+impl<A5_A, > T11_Clone for C<7, (Box<A5_A, >, ), > where  {
 }
 
-impl T36_From<char, > for u32 {
+impl<A5_A, > T11_Clone for C<8, (Box<A5_A, >, ), > where A5_A: T12_Copy,  {
 }
 
-impl T36_From<bool, > for u64 {
+impl T11_Clone for int {
 }
 
-impl T36_From<u8, > for u64 {
+impl T11_Clone for nat {
 }
 
-impl T36_From<u16, > for u64 {
+impl<A2_T, > T13_From<D4_NonZero<A2_T, >, > for A2_T where A2_T: T3_ZeroablePrimitive,  {
 }
 
-impl T36_From<u32, > for u64 {
+impl<A2_T, > T13_From<A2_T, > for A2_T where  {
 }
 
-impl T36_From<char, > for u64 {
+impl<A2_T, > T13_From<A2_T, > for C<4, (Box<A2_T, >, Box<D1_Global, >, ), > where  {
 }
 
-impl T36_From<bool, > for u128 {
+impl T13_From<C<2, (Box<str, >, ), >, > for C<4, (Box<str, >, Box<D1_Global, >, ), > {
 }
 
-impl T36_From<u8, > for u128 {
+impl T13_From<C<3, (Box<str, >, ), >, > for C<4, (Box<str, >, Box<D1_Global, >, ), > {
 }
 
-impl T36_From<u16, > for u128 {
+impl T13_From<D8_String, > for C<4, (Box<str, >, Box<D1_Global, >, ), > {
 }
 
-impl T36_From<u32, > for u128 {
+impl<A2_T, > T13_From<A2_T, > for C<6, (Box<A2_T, >, Box<D1_Global, >, ), > where  {
 }
 
-impl T36_From<u64, > for u128 {
+impl T13_From<C<2, (Box<str, >, ), >, > for C<6, (Box<str, >, Box<D1_Global, >, ), > {
 }
 
-impl T36_From<char, > for u128 {
+impl T13_From<C<3, (Box<str, >, ), >, > for C<6, (Box<str, >, Box<D1_Global, >, ), > {
 }
 
-impl T36_From<bool, > for i8 {
+impl T13_From<D8_String, > for C<6, (Box<str, >, Box<D1_Global, >, ), > {
 }
 
-impl T36_From<bool, > for i16 {
+impl<A2_T, A5_A, > T13_From<C<4, (Box<A2_T, >, Box<A5_A, >, ), >, > for C<6, (Box<A2_T, >, Box<A5_A, >, ), > where A5_A: T21_Allocator, A2_T : ?Sized,  {
 }
 
-impl T36_From<i8, > for i16 {
+impl<A2_T, > T13_From<A2_T, > for C<5, (Box<A2_T, >, Box<D1_Global, >, ), > where  {
 }
 
-impl T36_From<u8, > for i16 {
+impl T13_From<C<2, (Box<str, >, ), >, > for C<5, (Box<str, >, Box<D1_Global, >, ), > {
 }
 
-impl T36_From<bool, > for i32 {
+impl T13_From<C<3, (Box<str, >, ), >, > for C<5, (Box<str, >, Box<D1_Global, >, ), > {
 }
 
-impl T36_From<i8, > for i32 {
+impl T13_From<D8_String, > for C<5, (Box<str, >, Box<D1_Global, >, ), > {
 }
 
-impl T36_From<i16, > for i32 {
+impl<A2_T, A5_A, > T13_From<C<4, (Box<A2_T, >, Box<A5_A, >, ), >, > for C<5, (Box<A2_T, >, Box<A5_A, >, ), > where A5_A: T21_Allocator, A2_T : ?Sized,  {
 }
 
-impl T36_From<u8, > for i32 {
+impl T13_From<D4_NonZero<u8, >, > for D4_NonZero<u16, > {
 }
 
-impl T36_From<u16, > for i32 {
+impl T13_From<D4_NonZero<u8, >, > for D4_NonZero<u32, > {
 }
 
-impl T36_From<bool, > for i64 {
+impl T13_From<D4_NonZero<u8, >, > for D4_NonZero<u64, > {
 }
 
-impl T36_From<i8, > for i64 {
+impl T13_From<D4_NonZero<u8, >, > for D4_NonZero<u128, > {
 }
 
-impl T36_From<i16, > for i64 {
+impl T13_From<D4_NonZero<u8, >, > for D4_NonZero<usize, > {
 }
 
-impl T36_From<i32, > for i64 {
+impl T13_From<D4_NonZero<u16, >, > for D4_NonZero<u32, > {
 }
 
-impl T36_From<u8, > for i64 {
+impl T13_From<D4_NonZero<u16, >, > for D4_NonZero<u64, > {
 }
 
-impl T36_From<u16, > for i64 {
+impl T13_From<D4_NonZero<u16, >, > for D4_NonZero<u128, > {
 }
 
-impl T36_From<u32, > for i64 {
+impl T13_From<D4_NonZero<u16, >, > for D4_NonZero<usize, > {
 }
 
-impl T36_From<bool, > for i128 {
+impl T13_From<D4_NonZero<u32, >, > for D4_NonZero<u64, > {
 }
 
-impl T36_From<i8, > for i128 {
+impl T13_From<D4_NonZero<u32, >, > for D4_NonZero<u128, > {
 }
 
-impl T36_From<i16, > for i128 {
+impl T13_From<D4_NonZero<u64, >, > for D4_NonZero<u128, > {
 }
 
-impl T36_From<i32, > for i128 {
+impl T13_From<D4_NonZero<i8, >, > for D4_NonZero<i16, > {
 }
 
-impl T36_From<i64, > for i128 {
+impl T13_From<D4_NonZero<i8, >, > for D4_NonZero<i32, > {
 }
 
-impl T36_From<u8, > for i128 {
+impl T13_From<D4_NonZero<i8, >, > for D4_NonZero<i64, > {
 }
 
-impl T36_From<u16, > for i128 {
+impl T13_From<D4_NonZero<i8, >, > for D4_NonZero<i128, > {
 }
 
-impl T36_From<u32, > for i128 {
+impl T13_From<D4_NonZero<i8, >, > for D4_NonZero<isize, > {
 }
 
-impl T36_From<u64, > for i128 {
+impl T13_From<D4_NonZero<i16, >, > for D4_NonZero<i32, > {
 }
 
-impl T36_From<bool, > for isize {
+impl T13_From<D4_NonZero<i16, >, > for D4_NonZero<i64, > {
 }
 
-impl T36_From<i8, > for isize {
+impl T13_From<D4_NonZero<i16, >, > for D4_NonZero<i128, > {
 }
 
-impl T36_From<u8, > for isize {
+impl T13_From<D4_NonZero<i16, >, > for D4_NonZero<isize, > {
 }
 
-impl T36_From<i16, > for isize {
+impl T13_From<D4_NonZero<i32, >, > for D4_NonZero<i64, > {
 }
 
-impl T36_From<u8, > for char {
+impl T13_From<D4_NonZero<i32, >, > for D4_NonZero<i128, > {
 }
 
-impl<A10_T, > T36_From<Arr<A10_T, 2, >, > for (Box<A10_T, >, Box<A10_T, >, ) where  {
+impl T13_From<D4_NonZero<i64, >, > for D4_NonZero<i128, > {
 }
 
-impl T36_From<C<2, (Box<str, >, ), >, > for D23_String {
+impl T13_From<D4_NonZero<u8, >, > for D4_NonZero<i16, > {
 }
 
-impl T36_From<C<3, (Box<str, >, ), >, > for D23_String {
+impl T13_From<D4_NonZero<u8, >, > for D4_NonZero<i32, > {
 }
 
-impl T36_From<C<2, (Box<D23_String, >, ), >, > for D23_String {
+impl T13_From<D4_NonZero<u8, >, > for D4_NonZero<i64, > {
 }
 
-impl T36_From<C<4, (Box<str, >, Box<D1_Global, >, ), >, > for D23_String {
+impl T13_From<D4_NonZero<u8, >, > for D4_NonZero<i128, > {
 }
 
-impl T36_From<char, > for D23_String {
+impl T13_From<D4_NonZero<u8, >, > for D4_NonZero<isize, > {
 }
 
-impl<A10_T, > T32_Copy for D13_NonZero<A10_T, > where A10_T: T12_ZeroablePrimitive,  {
+impl T13_From<D4_NonZero<u16, >, > for D4_NonZero<i32, > {
 }
 
-impl T32_Copy for usize {
+impl T13_From<D4_NonZero<u16, >, > for D4_NonZero<i64, > {
 }
 
-impl T32_Copy for u8 {
+impl T13_From<D4_NonZero<u16, >, > for D4_NonZero<i128, > {
 }
 
-impl T32_Copy for u16 {
+impl T13_From<D4_NonZero<u32, >, > for D4_NonZero<i64, > {
 }
 
-impl T32_Copy for u32 {
+impl T13_From<D4_NonZero<u32, >, > for D4_NonZero<i128, > {
 }
 
-impl T32_Copy for u64 {
+impl T13_From<D4_NonZero<u64, >, > for D4_NonZero<i128, > {
 }
 
-impl T32_Copy for u128 {
+impl T13_From<bool, > for usize {
 }
 
-impl T32_Copy for isize {
+impl T13_From<u8, > for usize {
 }
 
-impl T32_Copy for i8 {
+impl T13_From<u16, > for usize {
 }
 
-impl T32_Copy for i16 {
+impl T13_From<bool, > for u8 {
 }
 
-impl T32_Copy for i32 {
+impl T13_From<bool, > for u16 {
 }
 
-impl T32_Copy for i64 {
+impl T13_From<u8, > for u16 {
 }
 
-impl T32_Copy for i128 {
+impl T13_From<bool, > for u32 {
 }
 
-impl T32_Copy for bool {
+impl T13_From<u8, > for u32 {
 }
 
-impl T32_Copy for char {
+impl T13_From<u16, > for u32 {
 }
 
-impl<A10_T, > T32_Copy for C<10, (Box<C<1, (Box<A10_T, >, ), >, >, ), > where A10_T : ?Sized,  {
+impl T13_From<char, > for u32 {
 }
 
-impl<A10_T, > T32_Copy for C<1, (Box<A10_T, >, ), > where A10_T : ?Sized,  {
+impl T13_From<bool, > for u64 {
 }
 
-impl<A10_T, > T32_Copy for C<2, (Box<A10_T, >, ), > where A10_T : ?Sized,  {
+impl T13_From<u8, > for u64 {
 }
 
-impl<A10_T, > T32_Copy for D11_Bound<A10_T, > where A10_T: T32_Copy,  {
+impl T13_From<u16, > for u64 {
 }
 
-impl<A10_T, const A56_N: usize, > T32_Copy for Arr<A10_T, A56_N, > where A10_T: T32_Copy,  {
+impl T13_From<u32, > for u64 {
 }
 
-impl T32_Copy for D1_Global {
+impl T13_From<char, > for u64 {
 }
 
-impl<A7_A, > T32_Copy for C<7, (Box<A7_A, >, ), > where  {
+impl T13_From<bool, > for u128 {
 }
 
-impl<A7_A, > T32_Copy for C<8, (Box<A7_A, >, ), > where A7_A: T32_Copy,  {
+impl T13_From<u8, > for u128 {
 }
 
-impl T32_Copy for int {
+impl T13_From<u16, > for u128 {
 }
 
-impl T32_Copy for nat {
+impl T13_From<u32, > for u128 {
 }
 
-impl<A7_A, A62_F, > T42_Fn<A7_A, > for C<2, (Box<A62_F, >, ), > where A7_A: Tuple, A62_F: T42_Fn<A7_A, >, A62_F : ?Sized,  {
+impl T13_From<u64, > for u128 {
 }
 
-impl<A39_Args, A62_F, A7_A, > T42_Fn<A39_Args, > for C<4, (Box<A62_F, >, Box<A7_A, >, ), > where A39_Args: Tuple, A62_F: T42_Fn<A39_Args, >, A7_A: T8_Allocator, A62_F : ?Sized,  {
+impl T13_From<char, > for u128 {
 }
 
-impl<A7_A, A62_F, > T41_FnMut<A7_A, > for C<2, (Box<A62_F, >, ), > where A7_A: Tuple, A62_F: T42_Fn<A7_A, >, A62_F : ?Sized,  {
+impl T13_From<bool, > for i8 {
 }
 
-impl<A7_A, A62_F, > T41_FnMut<A7_A, > for C<3, (Box<A62_F, >, ), > where A7_A: Tuple, A62_F: T41_FnMut<A7_A, >, A62_F : ?Sized,  {
+impl T13_From<bool, > for i16 {
 }
 
-impl<A39_Args, A62_F, A7_A, > T41_FnMut<A39_Args, > for C<4, (Box<A62_F, >, Box<A7_A, >, ), > where A39_Args: Tuple, A62_F: T41_FnMut<A39_Args, >, A7_A: T8_Allocator, A62_F : ?Sized,  {
+impl T13_From<i8, > for i16 {
 }
 
-impl<A7_A, A62_F, > T40_FnOnce<A7_A, > for C<2, (Box<A62_F, >, ), > where A7_A: Tuple, A62_F: T42_Fn<A7_A, >, A62_F : ?Sized,  {
-    type A28_Output = <A62_F as T40_FnOnce<A7_A, >>::A28_Output;
+impl T13_From<u8, > for i16 {
 }
 
-impl<A7_A, A62_F, > T40_FnOnce<A7_A, > for C<3, (Box<A62_F, >, ), > where A7_A: Tuple, A62_F: T41_FnMut<A7_A, >, A62_F : ?Sized,  {
-    type A28_Output = <A62_F as T40_FnOnce<A7_A, >>::A28_Output;
+impl T13_From<bool, > for i32 {
 }
 
-impl<A39_Args, A62_F, A7_A, > T40_FnOnce<A39_Args, > for C<4, (Box<A62_F, >, Box<A7_A, >, ), > where A39_Args: Tuple, A62_F: T40_FnOnce<A39_Args, >, A7_A: T8_Allocator, A62_F : ?Sized,  {
-    type A28_Output = <A62_F as T40_FnOnce<A39_Args, >>::A28_Output;
+impl T13_From<i8, > for i32 {
 }
 
-impl<A15_K, A63_Q, A16_V, A6_S, A7_A, > T44_Index<C<2, (Box<A63_Q, >, ), >, > for D9_HashMap<A15_K, A16_V, A6_S, A7_A, > where A15_K: T35_Eq, A15_K: T46_Hash, A15_K: T48_Borrow<A63_Q, >, A63_Q: T35_Eq, A63_Q: T46_Hash, A6_S: T51_BuildHasher, A7_A: T8_Allocator, A63_Q : ?Sized,  {
-    type A28_Output = A16_V;
+impl T13_From<i16, > for i32 {
 }
 
-impl<A10_T, A57_I, const A56_N: usize, > T44_Index<A57_I, > for Arr<A10_T, A56_N, > where [A10_T]: T44_Index<A57_I, >,  {
-    type A28_Output = <[A10_T] as T44_Index<A57_I, >>::A28_Output;
+impl T13_From<u8, > for i32 {
 }
 
-impl<A10_T, A57_I, > T44_Index<A57_I, > for [A10_T] where A57_I: T27_SliceIndex<[A10_T], >,  {
-    type A28_Output = <A57_I as T27_SliceIndex<[A10_T], >>::A28_Output;
+impl T13_From<u16, > for i32 {
 }
 
-impl<A57_I, > T44_Index<A57_I, > for str where A57_I: T27_SliceIndex<str, >,  {
-    type A28_Output = <A57_I as T27_SliceIndex<str, >>::A28_Output;
+impl T13_From<bool, > for i64 {
 }
 
-impl<A57_I, > T44_Index<A57_I, > for D23_String where A57_I: T27_SliceIndex<str, >,  {
-    type A28_Output = <A57_I as T27_SliceIndex<str, >>::A28_Output;
+impl T13_From<i8, > for i64 {
 }
 
-impl<A10_T, > T53_RangeBounds<A10_T, > for (Box<D11_Bound<A10_T, >, >, Box<D11_Bound<A10_T, >, >, ) where  {
+impl T13_From<i16, > for i64 {
 }
 
-impl<A10_T, > T53_RangeBounds<A10_T, > for (Box<D11_Bound<C<2, (Box<A10_T, >, ), >, >, >, Box<D11_Bound<C<2, (Box<A10_T, >, ), >, >, >, ) where A10_T : ?Sized,  {
+impl T13_From<i32, > for i64 {
 }
 
-impl<A10_T, > T46_Hash for D13_NonZero<A10_T, > where A10_T: T12_ZeroablePrimitive, A10_T: T46_Hash,  {
+impl T13_From<u8, > for i64 {
 }
 
-impl<A10_T, > T46_Hash for D11_Bound<A10_T, > where A10_T: T46_Hash,  {
+impl T13_From<u16, > for i64 {
 }
 
-impl<A10_T, const A56_N: usize, > T46_Hash for Arr<A10_T, A56_N, > where A10_T: T46_Hash,  {
+impl T13_From<u32, > for i64 {
 }
 
-impl T46_Hash for u8 {
+impl T13_From<bool, > for i128 {
 }
 
-impl T46_Hash for u16 {
+impl T13_From<i8, > for i128 {
 }
 
-impl T46_Hash for u32 {
+impl T13_From<i16, > for i128 {
 }
 
-impl T46_Hash for u64 {
+impl T13_From<i32, > for i128 {
 }
 
-impl T46_Hash for usize {
+impl T13_From<i64, > for i128 {
 }
 
-impl T46_Hash for i8 {
+impl T13_From<u8, > for i128 {
 }
 
-impl T46_Hash for i16 {
+impl T13_From<u16, > for i128 {
 }
 
-impl T46_Hash for i32 {
+impl T13_From<u32, > for i128 {
 }
 
-impl T46_Hash for i64 {
+impl T13_From<u64, > for i128 {
 }
 
-impl T46_Hash for isize {
+impl T13_From<bool, > for isize {
 }
 
-impl T46_Hash for u128 {
+impl T13_From<i8, > for isize {
 }
 
-impl T46_Hash for i128 {
+impl T13_From<u8, > for isize {
 }
 
-impl T46_Hash for bool {
+impl T13_From<i16, > for isize {
 }
 
-impl T46_Hash for char {
+impl T13_From<u8, > for char {
 }
 
-impl T46_Hash for str {
+impl T13_From<C<2, (Box<str, >, ), >, > for D8_String {
 }
 
-impl T46_Hash for () {
+impl T13_From<C<3, (Box<str, >, ), >, > for D8_String {
 }
 
-impl<A10_T, A60_B, > T46_Hash for (Box<A10_T, >, Box<A60_B, >, ) where A10_T: T46_Hash, A60_B: T46_Hash,  {
+impl T13_From<C<2, (Box<D8_String, >, ), >, > for D8_String {
 }
 
-impl<A10_T, > T46_Hash for [A10_T] where A10_T: T46_Hash,  {
+impl T13_From<C<4, (Box<str, >, Box<D1_Global, >, ), >, > for D8_String {
 }
 
-impl<A10_T, > T46_Hash for C<2, (Box<A10_T, >, ), > where A10_T: T46_Hash, A10_T : ?Sized,  {
+impl T13_From<char, > for D8_String {
 }
 
-impl<A10_T, > T46_Hash for C<3, (Box<A10_T, >, ), > where A10_T: T46_Hash, A10_T : ?Sized,  {
+impl<A2_T, > T12_Copy for D4_NonZero<A2_T, > where A2_T: T3_ZeroablePrimitive,  {
 }
 
-impl<A10_T, > T46_Hash for C<10, (Box<C<1, (Box<A10_T, >, ), >, >, ), > where A10_T : ?Sized,  {
+impl T12_Copy for usize {
 }
 
-impl<A10_T, > T46_Hash for C<1, (Box<A10_T, >, ), > where A10_T : ?Sized,  {
+impl T12_Copy for u8 {
 }
 
-impl<A10_T, A7_A, > T46_Hash for C<4, (Box<A10_T, >, Box<A7_A, >, ), > where A10_T: T46_Hash, A7_A: T8_Allocator, A10_T : ?Sized,  {
+impl T12_Copy for u16 {
 }
 
-impl<A10_T, A7_A, > T46_Hash for C<5, (Box<A10_T, >, Box<A7_A, >, ), > where A10_T: T46_Hash, A7_A: T8_Allocator, A10_T : ?Sized,  {
+impl T12_Copy for u32 {
 }
 
-impl T46_Hash for D23_String {
+impl T12_Copy for u64 {
 }
 
-impl<A10_T, A7_A, > T46_Hash for C<6, (Box<A10_T, >, Box<A7_A, >, ), > where A10_T: T46_Hash, A7_A: T8_Allocator, A10_T : ?Sized,  {
+impl T12_Copy for u128 {
 }
 
-impl T50_Hasher for D2_DefaultHasher {
+impl T12_Copy for isize {
 }
 
-impl<A64_H, > T50_Hasher for C<3, (Box<A64_H, >, ), > where A64_H: T50_Hasher, A64_H : ?Sized,  {
+impl T12_Copy for i8 {
 }
 
-impl<A10_T, A7_A, > T50_Hasher for C<4, (Box<A10_T, >, Box<A7_A, >, ), > where A10_T: T50_Hasher, A7_A: T8_Allocator, A10_T : ?Sized,  {
+impl T12_Copy for i16 {
 }
 
-impl T51_BuildHasher for D3_RandomState {
-    type A52_Hasher = D2_DefaultHasher;
+impl T12_Copy for i32 {
 }
 
-impl<A10_T, > T27_SliceIndex<[A10_T], > for usize where  {
-    type A28_Output = A10_T;
+impl T12_Copy for i64 {
 }
 
-impl<A10_T, > T27_SliceIndex<[A10_T], > for (Box<D11_Bound<usize, >, >, Box<D11_Bound<usize, >, >, ) where  {
-    type A28_Output = [A10_T];
+impl T12_Copy for i128 {
 }
 
-impl T27_SliceIndex<str, > for (Box<D11_Bound<usize, >, >, Box<D11_Bound<usize, >, >, ) {
-    type A28_Output = str;
+impl T12_Copy for bool {
 }
 
-impl<A7_A, > T8_Allocator for C<2, (Box<A7_A, >, ), > where A7_A: T8_Allocator, A7_A : ?Sized,  {
+impl T12_Copy for char {
 }
 
-impl<A7_A, > T8_Allocator for C<3, (Box<A7_A, >, ), > where A7_A: T8_Allocator, A7_A : ?Sized,  {
+impl<A2_T, > T12_Copy for C<2, (Box<A2_T, >, ), > where A2_T : ?Sized,  {
 }
 
-impl T8_Allocator for D1_Global {
+impl T12_Copy for D1_Global {
 }
 
-impl<A10_T, A7_A, > T8_Allocator for C<4, (Box<A10_T, >, Box<A7_A, >, ), > where A10_T: T8_Allocator, A7_A: T8_Allocator, A10_T : ?Sized,  {
+impl<A5_A, > T12_Copy for C<7, (Box<A5_A, >, ), > where  {
 }
 
-impl<A10_T, A7_A, > T8_Allocator for C<5, (Box<A10_T, >, Box<A7_A, >, ), > where A10_T: T8_Allocator, A7_A: T8_Allocator, A10_T : ?Sized,  {
+impl<A5_A, > T12_Copy for C<8, (Box<A5_A, >, ), > where A5_A: T12_Copy,  {
 }
 
-impl<A10_T, A7_A, > T8_Allocator for C<6, (Box<A10_T, >, Box<A7_A, >, ), > where A10_T: T8_Allocator, A7_A: T8_Allocator, A10_T : ?Sized,  {
+impl T12_Copy for int {
 }
 
-impl T45_Integer for u8 {
+impl T12_Copy for nat {
 }
 
-impl T45_Integer for u16 {
+impl<A5_A, A23_F, > T20_Fn<A5_A, > for C<2, (Box<A23_F, >, ), > where A5_A: Tuple, A23_F: T20_Fn<A5_A, >, A23_F : ?Sized,  {
 }
 
-impl T45_Integer for u32 {
+impl<A16_Args, A23_F, A5_A, > T20_Fn<A16_Args, > for C<4, (Box<A23_F, >, Box<A5_A, >, ), > where A16_Args: Tuple, A23_F: T20_Fn<A16_Args, >, A5_A: T21_Allocator, A23_F : ?Sized,  {
 }
 
-impl T45_Integer for u64 {
+impl<A5_A, A23_F, > T19_FnMut<A5_A, > for C<2, (Box<A23_F, >, ), > where A5_A: Tuple, A23_F: T20_Fn<A5_A, >, A23_F : ?Sized,  {
 }
 
-impl T45_Integer for u128 {
+impl<A5_A, A23_F, > T19_FnMut<A5_A, > for C<3, (Box<A23_F, >, ), > where A5_A: Tuple, A23_F: T19_FnMut<A5_A, >, A23_F : ?Sized,  {
 }
 
-impl T45_Integer for usize {
+impl<A16_Args, A23_F, A5_A, > T19_FnMut<A16_Args, > for C<4, (Box<A23_F, >, Box<A5_A, >, ), > where A16_Args: Tuple, A23_F: T19_FnMut<A16_Args, >, A5_A: T21_Allocator, A23_F : ?Sized,  {
 }
 
-impl T45_Integer for i8 {
+impl<A5_A, A23_F, > T17_FnOnce<A5_A, > for C<2, (Box<A23_F, >, ), > where A5_A: Tuple, A23_F: T20_Fn<A5_A, >, A23_F : ?Sized,  {
+    type A18_Output = <A23_F as T17_FnOnce<A5_A, >>::A18_Output;
 }
 
-impl T45_Integer for i16 {
+impl<A5_A, A23_F, > T17_FnOnce<A5_A, > for C<3, (Box<A23_F, >, ), > where A5_A: Tuple, A23_F: T19_FnMut<A5_A, >, A23_F : ?Sized,  {
+    type A18_Output = <A23_F as T17_FnOnce<A5_A, >>::A18_Output;
 }
 
-impl T45_Integer for i32 {
+impl<A16_Args, A23_F, A5_A, > T17_FnOnce<A16_Args, > for C<4, (Box<A23_F, >, Box<A5_A, >, ), > where A16_Args: Tuple, A23_F: T17_FnOnce<A16_Args, >, A5_A: T21_Allocator, A23_F : ?Sized,  {
+    type A18_Output = <A23_F as T17_FnOnce<A16_Args, >>::A18_Output;
 }
 
-impl T45_Integer for i64 {
+impl<A5_A, > T21_Allocator for C<2, (Box<A5_A, >, ), > where A5_A: T21_Allocator, A5_A : ?Sized,  {
 }
 
-impl T45_Integer for i128 {
+impl<A5_A, > T21_Allocator for C<3, (Box<A5_A, >, ), > where A5_A: T21_Allocator, A5_A : ?Sized,  {
 }
 
-impl T45_Integer for isize {
+impl T21_Allocator for D1_Global {
 }
 
-impl T45_Integer for int {
+impl<A2_T, A5_A, > T21_Allocator for C<4, (Box<A2_T, >, Box<A5_A, >, ), > where A2_T: T21_Allocator, A5_A: T21_Allocator, A2_T : ?Sized,  {
 }
 
-impl T45_Integer for nat {
+impl<A2_T, A5_A, > T21_Allocator for C<5, (Box<A2_T, >, Box<A5_A, >, ), > where A2_T: T21_Allocator, A5_A: T21_Allocator, A2_T : ?Sized,  {
 }
 
-impl T45_Integer for char {
+impl<A2_T, A5_A, > T21_Allocator for C<6, (Box<A2_T, >, Box<A5_A, >, ), > where A2_T: T21_Allocator, A5_A: T21_Allocator, A2_T : ?Sized,  {
 }
